@@ -9,6 +9,7 @@ import (
 	"strings"
 
 	"github.com/Syuparn/pangaea/ast"
+	"github.com/Syuparn/pangaea/evaluator"
 	"github.com/Syuparn/pangaea/object"
 	seam "github.com/Syuparn/pangaea/verifseam"
 
@@ -28,6 +29,35 @@ var c06Blacklist = map[string]bool{
 	"serve": true, "import": true, "invite!": true, "read": true, "argv": true, "_init": true,
 	"next":    true, // iterators are mutable by definition
 	"request": true, "serveBackground": true, "stop": true,
+}
+
+// c06Observe adds what the value SHOWS through the language itself (length, first and last
+// elements, its text) to the structural fingerprint: "contains" and "prints" are also what
+// indexing and S answer, wherever the interpreter keeps the data it answers from (a struct
+// field today, a cache tomorrow). Strings and arrays only, outer levels only.
+var c06ObserveProg ast.Node
+var c06ObserveGlobal *object.Env
+var c06ObserveSym object.SymHash
+
+func c06Observe(o object.PanObject, depth int) string {
+	if c06ObserveProg == nil || depth > 1 {
+		return ""
+	}
+	env := object.NewEnclosedEnv(c06ObserveGlobal)
+	env.Set(c06ObserveSym, o)
+	var out string
+	func() {
+		defer func() {
+			if r := recover(); r != nil {
+				if r == seam.FuelExhausted {
+					panic(r)
+				}
+				out = fmt.Sprint("observe-panic ", r)
+			}
+		}()
+		out = evaluator.Eval(c06ObserveProg, env).Inspect()
+	}()
+	return "|shows" + out
 }
 
 // fingerprint renders what a value "prints, contains, equals or inherits".
@@ -58,7 +88,7 @@ func c06Fingerprint(o object.PanObject, builtins map[object.PanObject]string, de
 	case *object.PanFloat:
 		return fmt.Sprintf("float(%v)^%s", v.Value, proto)
 	case *object.PanStr:
-		return fmt.Sprintf("str(%q,%v,%v)^%s", v.Value, v.IsPublic, v.IsSym, proto)
+		return fmt.Sprintf("str(%q,%v,%v)^%s%s", v.Value, v.IsPublic, v.IsSym, proto, c06Observe(o, depth))
 	case *object.PanBool:
 		return fmt.Sprintf("bool(%v)", v.Value)
 	case *object.PanNil:
@@ -68,7 +98,7 @@ func c06Fingerprint(o object.PanObject, builtins map[object.PanObject]string, de
 		for i, e := range v.Elems {
 			parts[i] = c06Fingerprint(e, builtins, depth+1)
 		}
-		return "arr[" + strings.Join(parts, ",") + "]^" + proto
+		return "arr[" + strings.Join(parts, ",") + "]^" + proto + c06Observe(o, depth)
 	case *object.PanObj:
 		if v.Pairs == nil {
 			return "obj<nil pairs>^" + proto
@@ -214,6 +244,11 @@ func (c *c06Check) Init(tier string) {
 // initTables discovers the built-in prototypes and their property names by reflection.
 func (c *c06Check) initTables(it *harness.Interp) {
 	c.it = it
+	if c06ObserveProg == nil {
+		if prog, err := harness.Parse("[obsv__.len, obsv__[0], obsv__[1], obsv__[-1], obsv__[1:3], obsv__.S]"); err == nil {
+			c06ObserveGlobal, c06ObserveSym, c06ObserveProg = it.Global, object.GetSymHash("obsv__"), prog
+		}
+	}
 	c.builtins = map[object.PanObject]string{}
 	c.propsOf = map[object.PanObject][]string{}
 	hs := make([]uint64, 0, len(c.it.Global.Store))
